@@ -208,7 +208,7 @@ static void rmw_litmus (void) {
 }
 int main (int argc, char **argv) {
 	if (argc < 4) return 2;
-	p_libsys_init ();
+	p_libsys_init (); p_libsys_shutdown (); p_libsys_init ();      /* the library is used after a shutdown / re-initialisation cycle */
 	if (!strcmp (argv[1], "seq")) {
 		FILE *in = fopen (argv[2], "r"); char line[256], c, op[32]; unsigned long long a, b;
 		if (!in) return 2;
